@@ -55,8 +55,13 @@ class Probe(edzed.SBlock):
 class Settable(edzed.SBlock):
     """Minimal SBlock whose output is assigned directly (no validation, no events of its own)."""
 
+    def __init__(self, *args, init=edzed.UNDEF, **kwargs):
+        self._init = init
+        super().__init__(*args, **kwargs)
+
     def init_regular(self):
-        pass
+        if self._init is not edzed.UNDEF:
+            self.set_output(self._init)
 
     def _event_set(self, *, value, **_):
         self.set_output(value)
